@@ -85,6 +85,7 @@ def gen_full(rng, tier):
     """Case: incf <depth> <hex root> <hex path>=<hex content>;... <hex flattened text|-> <hex expected line|->"""
     n = 900 if tier == "quick" else 20000
     caseless = c24.caseless_in_tree()
+    yield from incgen.fixed_cases()
     for i in range(n):
         t = incgen.gen_tree(rng, caseless)
         exp = t["expected"]
@@ -132,7 +133,7 @@ CHECK = {
     "property": "C25",
     "props": "Props/C25.v",
     "theorems": ["c25_stack_eq_expand", "c25_terminates", "c25_depth", "c25_context_scoping",
-                 "c25_iter_stack_eq_expand", "c25_iter_depth", "c25_lines_are_iter", "c25_full_stack_eq_expand", "c25_full_total_valid",
+                 "c25_iter_stack_eq_expand", "c25_iter_depth", "c25_lines_are_iter", "c25_relative_paths", "c25_full_stack_eq_expand", "c25_full_total_valid",
                  "c25_full_include_boundary", "c25_full_include_directory"],
     "allowed_axioms": [],
     "suites": [{
@@ -153,7 +154,9 @@ CHECK = {
         "gen": gen_full, "nontrivial": nontrivial_full, "classify": classify_full,
         "oracle_ok": oracle_ok_full,
         "exhaustive": {"quick": False, "thorough": False},
-        "rule": ("random trees of REAL zone files (checks/incgen.py): 1..7 files in sub-directories (one with a blank in its name), generated in "
+        "rule": ("30 hand-written boundary trees (included file ending inside parentheses / without a line ending / empty; directive over several "
+                 "lines; chains at the limit; self- and mutual inclusion; directories; the name limit reached through the handed-down origin; ...), then "
+                 "random trees of REAL zone files (checks/incgen.py): 1..7 files in sub-directories (one with a blank in its name), generated in "
                  "execution order by a generator that carries the parse context the property prescribes; every record type of checks/zfgen.py "
                  "(incl. CH A, WKS, TXT, SOA, unknown types, \\# forms), $ORIGIN / $TTL in includers and included files, $INCLUDE paths relative "
                  "with `..`, quoted / escaped, optional directive origins; presentation depends on the context: names relative to the current origin, "
